@@ -155,6 +155,7 @@ def cases(rng, tier):
     # (5) file operations in every handle state
     yield from file_cases(rng, tier)
     yield from file_state_matrix(rng, tier)
+    yield from file_key_cases(rng, tier)
     # (6) imports that cannot succeed
     yield from import_cases(rng, tier)
     # (8) the same callees invoked *by a built-in* instead of a call expression: as ㄱㄹ continuation and handler (called
@@ -235,6 +236,18 @@ def file_state_matrix(rng, tier):
                     if handler and tier == 'quick' and rng.random() < 0.5:
                         continue
                     yield Case(program=file_program(rng, "f.bin", mode, prefix + [op], handler=handler), fs=fs, tag='file-state-' + sname)
+
+
+def file_key_cases(rng, tier):
+    """file actions are *values*: every operation form, built but not executed, compared with ㄴ, used as a dictionary key and
+    compared inside a list (seeded change S04i put a host integer among a seek action's contents: keying it crashed)"""
+    fs = {"f.bin": b"0123456789"}
+    for mode in ('ㄹ', 'ㄹㅈㄹ', 'ㅈㄱㄹ'):
+        for op in FILE_OPS:
+            for n_ in (0, 2, -1):
+                a = "(" + op.format(f="ㄱㅇㄱ", n=enc(n_), b=render(bytes_lit(b"xy")), s=render(str_lit("s"))) + ")"
+                body = f"({a} {a} ㄴㅎㄷ) ({a} ({a} ㄴ ㅅㅈㅎㄷ) ㅎㄴ) (({a} ㅁㄹㅎㄴ) ({a} ㅁㄹㅎㄴ) ㄴㅎㄷ) ({a} (ㄱ ㅈ ㄱㅇㄱ ㅎㄷ) ㄴㅎㄷ) ㅁㄹㅎㅁ ㄱㅅㅎㄴ"
+                yield Case(program=f"{render(str_lit('f.bin'))} {mode} ㄱㄴㅎㄷ ({body} ㅎ) ㄱㄹㅎㄷ", fs=fs, tag='file-action-key')
 
 
 def import_cases(rng, tier):
